@@ -2,6 +2,7 @@ package main
 
 import (
 	"fmt"
+	"hash/fnv"
 	"io"
 	"math"
 	"math/rand"
@@ -106,12 +107,16 @@ func execBinary(op string) (res string) {
 	defer os.RemoveAll(dir)
 	cfgFile := filepath.Join(dir, "mapping.yml")
 	must(os.WriteFile(cfgFile, []byte(cfg.yaml()), 0o644))
-	web, udp := freePort("tcp"), freePort("udp")
+	web, udp, tcpPort := freePort("tcp"), freePort("udp"), freePort("tcp")
+	// transport of this history: UDP datagrams or one TCP connection (derived from the op text, so replay is deterministic)
+	hh := fnv.New32a()
+	hh.Write([]byte(op))
+	useTCP := hh.Sum32()%2 == 1
 	cmd := exec.Command(exporterBin,
 		fmt.Sprintf("--web.listen-address=127.0.0.1:%d", web),
 		fmt.Sprintf("--statsd.listen-udp=127.0.0.1:%d", udp),
-		"--statsd.listen-tcp=", "--statsd.mapping-config="+cfgFile,
-		"--statsd.event-flush-interval=2ms", "--log.level=error",
+		fmt.Sprintf("--statsd.listen-tcp=127.0.0.1:%d", tcpPort), "--statsd.mapping-config="+cfgFile,
+		"--statsd.event-flush-interval=2ms", "--log.level=error", "--web.enable-lifecycle",
 		onoff("statsd.parse-dogstatsd-tags", flags[0]), onoff("statsd.parse-influxdb-tags", flags[1]),
 		onoff("statsd.parse-librato-tags", flags[2]), onoff("statsd.parse-signalfx-tags", flags[3]))
 	cmd.Stdout, cmd.Stderr = io.Discard, io.Discard
@@ -142,11 +147,47 @@ func execBinary(op string) (res string) {
 	if !ready {
 		return "not-ready"
 	}
-	conn, err := net.DialUDP("udp", nil, &net.UDPAddr{IP: net.IPv4(127, 0, 0, 1), Port: udp})
+	var conn net.Conn
+	if useTCP {
+		conn, err = net.DialTCP("tcp", nil, &net.TCPAddr{IP: net.IPv4(127, 0, 0, 1), Port: tcpPort})
+	} else {
+		conn, err = net.DialUDP("udp", nil, &net.UDPAddr{IP: net.IPv4(127, 0, 0, 1), Port: udp})
+	}
 	must(err)
 	defer conn.Close()
+	sendLine := func(l string) {
+		if useTCP {
+			conn.Write([]byte(l + "\n"))
+		} else {
+			conn.Write([]byte(l))
+		}
+	}
 	outs := []string{"ok"}
 	sent := 0
+	// waits until everything sent so far has been processed: a sentinel line must show up on the endpoint
+	syncPipeline := func() (map[string]*dto.MetricFamily, int) {
+		sent++
+		sendLine(fmt.Sprintf("zz.q.q.q.q.q.%d:1|c", sent))
+		want := fmt.Sprintf("zz_q_q_q_q_q_%d", sent)
+		code := 0
+		for i := 0; i < 600; i++ {
+			m, c, err := scrapeHTTP(url)
+			code = c
+			if err == nil && c == 200 {
+				if _, ok := m[want]; ok {
+					return m, 200
+				}
+			}
+			if c == 500 {
+				time.Sleep(30 * time.Millisecond)
+				if _, c2, _ := scrapeHTTP(url); c2 == 500 {
+					return nil, 500
+				}
+			}
+			time.Sleep(2 * time.Millisecond)
+		}
+		return nil, code
+	}
 	for _, sub := range subs[1:] {
 		switch sub[0] {
 		case "line":
@@ -156,35 +197,31 @@ func execBinary(op string) (res string) {
 				continue
 			}
 			if len(l) > 0 {
-				conn.Write([]byte(l))
+				sendLine(l)
 			}
 			outs = append(outs, "ok")
-		case "scrape":
-			sent++
-			sentinel := fmt.Sprintf("zz.q.q.q.q.q.%d:1|c", sent)
-			want := fmt.Sprintf("zz_q_q_q_q_q_%d", sent)
-			conn.Write([]byte(sentinel))
-			var mfs map[string]*dto.MetricFamily
-			code := 0
-			for i := 0; i < 600; i++ {
-				m, c, err := scrapeHTTP(url)
-				code = c
-				if err == nil && c == 200 {
-					if _, ok := m[want]; ok {
-						mfs = m
-						break
-					}
-				}
-				if c == 500 {
-					// the sentinel cannot be seen on a failing endpoint: give the pipeline time, then accept the 500
-					time.Sleep(30 * time.Millisecond)
-					_, c2, _ := scrapeHTTP(url)
-					if c2 == 500 {
-						break
-					}
-				}
-				time.Sleep(2 * time.Millisecond)
+		case "load": // reload through the lifecycle endpoint (the handler runs reloadConfig synchronously)
+			syncPipeline()
+			c2 := decodeCfg(&rd{t: sub[1:]})
+			must(os.WriteFile(cfgFile, []byte(c2.yaml()), 0o644))
+			before, _, _ := scrapeHTTP(url)
+			resp, err := http.Post(fmt.Sprintf("http://127.0.0.1:%d/-/reload", web), "text/plain", nil)
+			if err != nil {
+				outs = append(outs, "reload-failed")
+				continue
 			}
+			io.Copy(io.Discard, resp.Body)
+			resp.Body.Close()
+			after, _, _ := scrapeHTTP(url)
+			f0 := sumFamily(before["statsd_exporter_config_reloads_total"], "outcome", "failure")
+			f1 := sumFamily(after["statsd_exporter_config_reloads_total"], "outcome", "failure")
+			if f1 > f0 {
+				outs = append(outs, "err")
+			} else {
+				outs = append(outs, "ok")
+			}
+		case "scrape":
+			mfs, code := syncPipeline()
 			if mfs == nil {
 				if code == 500 {
 					outs = append(outs, "gather-error")
@@ -226,7 +263,7 @@ func execBinary(op string) (res string) {
 
 func init() {
 	c := &Component{Name: "binary", Exec: execBinary,
-		Rule: "the BUILT binary (main.go wiring: flags, UDP listener, packet queue, event queue, exporter, /metrics) started per history with a generated mapping file and one of the 16 parser-flag combinations; 4-10 well-formed lines in all tag syntaxes sent over a real UDP socket, scraped over HTTP (a sentinel line marks the end of processing), the parsed exposition compared with the pipeline model's scrape. Non-trivial: the history has tags or >= 2 distinct series; distinct by op text."}
+		Rule: "the BUILT binary (main.go wiring: flags, UDP listener, packet queue, event queue, exporter, /metrics) started per history with a generated mapping file and one of the 16 parser-flag combinations; 4-10 well-formed lines in all tag syntaxes sent over a real UDP socket or one TCP connection (alternating), occasional valid/invalid reloads through /-/reload, scraped over HTTP (a sentinel line marks the end of processing), the parsed exposition compared with the pipeline model's scrape. Non-trivial: the history has tags or >= 2 distinct series; distinct by op text."}
 	c.Gen = func(r *rand.Rand, tier string, emit Emit) {
 		n := 48
 		if tier == "thorough" {
@@ -239,9 +276,67 @@ func init() {
 			k := 4 + r.Intn(7)
 			for j := 0; j < k; j++ {
 				h.line(genWellFormedLine(r, plNames, 0.6))
+				if r.Intn(12) == 0 { // reload (valid or invalid) through /-/reload
+					if r.Intn(3) == 0 {
+						h.load(&rawCfg{rules: []rawRule{{match: "a..b", name: "x"}}})
+					} else {
+						h.load(genPipeCfg(r, opts))
+					}
+				}
 			}
 			h.scrape()
 			emit(h.op(), true, "flags_"+h.flags)
+		}
+	}
+	register(c)
+}
+
+// checkconfig: `mapper none 0 | load <cfg>` ops answered by running the binary with --check-config (exit status)
+func execCheckConfig(op string) string {
+	if exporterBin == "" {
+		return "no-binary"
+	}
+	f := strings.Fields(op)
+	if len(f) < 6 || f[0] != "mapper" || f[3] != "|" || f[4] != "load" {
+		return "bad-op"
+	}
+	cfg := decodeCfg(&rd{t: f[5:]})
+	dir, err := os.MkdirTemp("", "vhchk")
+	must(err)
+	defer os.RemoveAll(dir)
+	cfgFile := filepath.Join(dir, "mapping.yml")
+	must(os.WriteFile(cfgFile, []byte(cfg.yaml()), 0o644))
+	cmd := exec.Command(exporterBin, "--check-config", "--statsd.mapping-config="+cfgFile, "--log.level=error",
+		"--web.listen-address=127.0.0.1:0", "--statsd.listen-udp=", "--statsd.listen-tcp=")
+	cmd.Stdout, cmd.Stderr = io.Discard, io.Discard
+	done := make(chan error, 1)
+	must(cmd.Start())
+	go func() { done <- cmd.Wait() }()
+	select {
+	case err := <-done:
+		if err != nil {
+			return "err\t"
+		}
+		return "ok\t"
+	case <-time.After(10 * time.Second):
+		cmd.Process.Kill()
+		return "check-config did not exit"
+	}
+}
+
+func init() {
+	c := &Component{Name: "checkconfig", Exec: execCheckConfig,
+		Rule: "configurations of the C19 option grammar (valid, boundary and invalid values for every option) written to a mapping file and checked with the built binary's --check-config; exit status 0/1 compared with the model's loader. Non-trivial: the configuration deviates from the valid baseline; distinct by op text."}
+	c.Gen = func(r *rand.Rand, tier string, emit Emit) {
+		n := 60
+		if tier == "thorough" {
+			n = 1500
+		}
+		for i := 0; i < n; i++ {
+			cfg, nt := genC19Cfg(r)
+			h := &mapperHist{kind: "none"}
+			h.load(cfg)
+			emit(h.op(), nt, "cfg")
 		}
 	}
 	register(c)
